@@ -9,11 +9,43 @@ NOTE = ("Trusted: Lean 4.33 kernel; axioms propext/Classical.choice/Quot.sound o
 
 # id -> dict(text=, note=, technique=, design=)   (claimed properties)
 CLAIMED = {
+ "C16": dict(
+  text="Lean theorems over ALL legal command sequences (induction / simulation, no bound): script_refines_stack and goals_refine (get_last_formula's replay loop with its five parallel structures returns exactly the assertions and goals live under the SMT-LIB assertion-stack spec), strict_ok/strict_live (get_strict_formula), track_refines_stack (IncrementalTrackingSolver's assertion list after every step = live assertions), placement_sufficient + oneshot_restores (is_sat/is_valid/is_unsat/solve-with-assumptions leave the list as found whenever every state-changing entry point clears the pending pop) and placement_table, decided over a table of @clear_pending_pop placements REGENERATED from /repo's solver classes by tools/gen_pendingpop.py on every run (removing a decorator breaks the proof). Tied to the code by a differential run of the Lean models against SmtLibScript / a concrete IncrementalTrackingSolver subclass on all legal sequences up to a length bound plus sampled longer ones, and searched against the spec directly.",
+  note="Formulas and goals are opaque ids in the model. Native solver wrappers are covered only through the regenerated decorator-placement table, not executed.",
+  technique="Lean 4 refinement proof (assertion-stack spec) + regenerated decorator table + differential run"),
+ "C17": dict(
+  text="Lean theorems by induction over ALL API call sequences and all solver oracles: replies_in_sync, verdict_faithful, shortcuts_negate (unconditional, any solver process); stream_legal_partial, decl_mirror_partial, assertions_mirror_partial, solve_truth_partial, is_sat_truth_partial, model_total_partial (the command stream emitted by the model of the repaired SmtLibSolver is accepted by the strict SMT-LIB front-end spec, bookkeeping mirrors the solver's scopes level by level, get_model covers every live symbol) under LegalRun = API preconditions + the exclusion of known finding F36 (hence _partial; the unrestricted statement is refuted in Lean by the F36 witness). Tied to the code by driving the real SmtLibSolver (registered through the factory) against harness/refsolver.py, a strict reference solver process that rejects illegal streams, comparing the byte stream token-wise with the model, and by comparing refsolver with the Lean StrictSolver on random streams.",
+  note="Function-typed symbols, print_model, named assertions, solve(assumptions) and non-incremental mode are not modelled. refsolver.py decides by exhaustive search over small finite domains.",
+  technique="Lean 4 invariant proofs over call sequences + strict reference solver process + differential stream comparison"),
+ "C18": dict(
+  text="Lean theorems for an ARBITRARY satisfiability oracle satisfying OracleSpec (returns a model iff one exists; may answer differently on every call), arbitrary possibly infinite feasible sets with attained optimum, both strategies (linear, binary) and both mix-ins (assumption-based, incremental): search_optimal/search_none_iff/search_restores/casts_in_range/search_terminates (min/max x Int/unsigned/signed BV), maxsmt_opt, minmax_opt, maxmin_opt, boxed_opt, lexi_opt, pareto_front (yielded vectors are exactly the Pareto front, each once, solver restored) and their termination theorems; all carry the hypothesis `supported` (known finding F24b: KeyError for an Int objective mentioning bit-vectors) and are therefore named _partial; the unrestricted restore statement is refuted in Lean. Tied to the code by running the real SUAOptimizerMixin / IncrementalOptimizerMixin over an enumerating solver (harness/brute.py) and replaying the same oracle answers through the Lean model event by event (push/pop/assert/solve with full constraint lists, pivots, blocking clauses), plus OptSearchInterval method by method on a bound grid; searched against plain enumeration of the optimum / lexicographic optimum / Pareto front.",
+  note="Real-valued objectives are not modelled (the property excludes bisection over reals); real MaxSMT weights only with the linear strategy. Pareto termination assumes finitely many feasible cost vectors.",
+  technique="Lean 4 proofs of the search loops against an abstract oracle + step-by-step differential replay"),
+ "C19": dict(
+  text="Lean theorems as inductive invariants over EVERY reachable state of a transition system modelling portfolio.py (any number of members, any per-member behaviour answer/raise/unknown/silent exit, every interleaving, repeated solve/get_model/push/pop cycles): verdict_in_answers, verdict_is_common, failures_ignored, no_deadlock, solve_terminates, all_fail_error, outcome_allowed/allowed_reachable (the closed-form outcome set is exact), isuccs_iff; serve_from_winner_partial, query_answered_partial, losers_dead_partial, model_satisfies_partial need the explicit OS-level hypothesis killAtomic (a terminated member cannot consume a later control message), which killAtomic_needed proves necessary. Tied to the code set-valued: the real Portfolio with 2-4 harness-defined member solver processes (delays incl. near-ties, failure modes, schedule perturbation patched into is_alive/terminate) must produce an outcome inside the model's allowed set, and the model/values obtained afterwards must satisfy the assertions.",
+  note="PARTIAL by nature: the theorem covers all schedules of the MODEL; schedules of the real system are sampled, and the atomicity assumptions A1-A4 about terminate()/pipes/queues (listed in the evidence) are OS facts that cannot be proved in Lean.",
+  technique="Lean 4 invariant proofs over a labelled transition system (all interleavings) + set-valued correspondence with controlled member processes"),
 }
 
 # id -> reason (not claimed)
 NOT_YET = "check under construction in this round (DESIGN.md section 10); not claimed until its model, theorems and correspondence run are committed"
 ALL = ["C%02d" % i for i in range(1, 21)]
+
+
+def lean_targets(claimed):
+    """modules the claimed checks need built: their Props modules and everything their drivers import"""
+    import re
+    mods = ["PySMT.Core.DriverLib"]
+    for pid in claimed:
+        src = open(os.path.join(V, "harness", "props", pid.lower() + ".py")).read()
+        m = re.search(r"LEAN_MODULES\s*=\s*\[([^\]]*)\]", src)
+        if m:
+            mods += re.findall(r'"([^"]+)"', m.group(1))
+        for d in re.findall(r'lean_run(?:_sharded)?\(\s*"(\w+)"', src) + [pid]:
+            dp = os.path.join(V, "lean", "Drivers", d + ".lean")
+            if os.path.exists(dp):
+                mods += re.findall(r"^import\s+(PySMT\.[\w.]+)", open(dp).read(), flags=re.M)
+    return list(dict.fromkeys(mods))
 
 
 def main():
@@ -35,7 +67,7 @@ def main():
         })
     man = {
         "version": 1,
-        "setup_cmd": "cd lean && lake build",
+        "setup_cmd": "cd lean && lake build " + " ".join(lean_targets([p for p in ALL if p in CLAIMED])),
         "hooks": {
             "guard": "PYSMT_VERIF",
             "enable": "no source hooks are needed: every observation is made from outside (wrapping walker callbacks, registering harness-defined solver classes, logging the SMT-LIB byte stream); PYSMT_VERIF=1 is set by ./check but nothing in /repo reads it",
